@@ -372,12 +372,7 @@ func init() {
 		if n == 1 {
 			return in.tb.Const(64, 0)
 		}
-		if in.ex.concrete {
-			return in.ex.NewVar(cstr(a[0]), 64)
-		}
-		v := in.ex.NewVar(cstr(a[0]), 64)
-		in.ex.Assume(in.tb.Bin("bvult", v, in.tb.Const(64, uint64(n))))
-		return in.ex.Concretize(v, n+1)
+		return in.ex.Choose(cstr(a[0]), n)
 	}
 	V["vxAssume"] = func(in *Interp, fn *ssa.Function, a []Value) Value {
 		in.ex.Assume(a[0].(*Term))
@@ -595,12 +590,15 @@ func init() {
 	I["strings.Contains"] = contains
 	I["bytes.Contains"] = contains
 	count := func(in *Interp, fn *ssa.Function, a []Value) Value {
+		// forks per byte (the callers - Split, Fields, Count - branch on the same comparisons anyway); the result is concrete
 		tb := in.tb
-		r := tb.Const(64, 0)
+		n := 0
 		for _, b := range in.termsOf(a[0]) {
-			r = tb.Bin("bvadd", r, in.boolInt(tb.Eq(b, a[1].(*Term)), 64))
+			if in.ex.Branch(tb.Eq(b, a[1].(*Term))) {
+				n++
+			}
 		}
-		return r
+		return tb.Const(64, uint64(n))
 	}
 	I["internal/bytealg.CountString"] = count
 	I["internal/bytealg.Count"] = count
